@@ -3,6 +3,7 @@ let families : (string * (string list -> string)) list = [
   "frame", Fam_frame.run;
   "conn", Fam_conn.run;
   "charac", Fam_charac.run;
+  "stack", Fam_stack.run;
   "connw", Fam_connw.run;
   "storage", Fam_storage.run;
   "db", Fam_storage.run_db;
